@@ -33,3 +33,20 @@ Example C13_nonvacuous :
   glob_match (lit "\*") (lit "\*") = false /\ glob_match (lit "a*b*c") (lit "aXXbYYbZc") = true /\
   parse_glob (lit "ab\") = Err 1.
 Proof. repeat split; vm_compute; reflexivity. Qed.
+
+(* two wildcards in a row are one wildcard - at the level of tokens: in `\**` the first star is a literal *)
+Theorem C13_consecutive_wildcards_are_one : forall p p' t1 t2 s,
+  toks p = Some (t1 ++ Star :: Star :: t2) -> toks p' = Some (t1 ++ Star :: t2) ->
+  glob_match p s = glob_match p' s.
+Proof. exact double_star_is_star. Qed.
+Print Assumptions C13_consecutive_wildcards_are_one.
+Theorem C13_lone_wildcard_matches_everything : forall s, glob_match [c_star] s = true.
+Proof. exact star_matches_all. Qed.
+Print Assumptions C13_lone_wildcard_matches_everything.
+Theorem C13_empty_pattern_matches_only_the_empty_string : forall s, glob_match [] s = true <-> s = [].
+Proof. exact empty_matches_empty. Qed.
+Print Assumptions C13_empty_pattern_matches_only_the_empty_string.
+Example C13_escaped_star_is_not_a_wildcard :
+  toks (lit "\**") = Some [Lit 42; Star] /\ toks (lit "\*") = Some [Lit 42] /\
+  glob_match (lit "\**") (lit "*x") = true /\ glob_match (lit "\*") (lit "*x") = false.
+Proof. repeat split; vm_compute; reflexivity. Qed.
